@@ -28,6 +28,7 @@ fn main() {
     }
     let rep = match prop.as_str() {
         "C06" => verif_harness::props::c06::run(&cfg),
+        "C15" => verif_harness::props::c15::run(&cfg),
         "C14" => verif_harness::props::c14::run(&cfg),
         "C16" => verif_harness::props::c16::run(&cfg),
         "C02" => verif_harness::props::c02::run(&cfg),
